@@ -24,7 +24,8 @@ ASSUMPTIONS = [
     'the tag type; the judge accepts either',
     'zero element counts, byte offsets that are not element-aligned and Set Attribute Single on string attributes are not '
     'specified by the statement: any reply is accepted but no tag may change',
-    'in-process driver and reference codec as for C03',
+    'in-process driver and reference codec as for C03; a second engine runs the same kind of histories over TCP against '
+    'enip.main.main() (one generated configuration per worker process)',
 ]
 MIN_EVALUATIONS = {'quick': 300, 'thorough': 5000}
 
@@ -33,11 +34,24 @@ def pred(case, stats):
     tagcheck.run_history(case, stats, PID, 'history')
 
 
-CLAUSES = {'history': pred}
+CLAUSES = {'history': pred, 'tcp-history': lambda case, stats: pred_tcp_replay(case, stats)}
 STRATEGIES = {'history': lambda max_ops: tagcheck.case_strategy('edge', max_ops, allow_big=False)}
 
 
+def pred_tcp(case, stats):
+    tagcheck.pred_tcp(case, stats, PID)
+
+
+def pred_tcp_replay(case, stats):
+    tagcheck.run_history(case, stats, PID, 'history')
+    if not tagcheck._TCP:
+        pred_tcp(case, stats)
+
+
 def shard(job):
+    if job[0] == 'tcp':
+        _, seed, i, n, max_ops = job
+        return tagcheck.tcp_shard(PID, 'edge', seed, i, n, max_ops, pred_tcp)
     seed, i, n, max_ops = job
     s = Stats()
     common.hyp_run(s, tagcheck.case_strategy('edge', max_ops, allow_big=False), pred, n, common.shard_seed(seed, i), 'history', PID, skey=max_ops)
@@ -46,7 +60,7 @@ def shard(job):
 
 def run(tier, seed):
     if tier == 'thorough':
-        jobs = [(seed, i, 400, 50) for i in range(32)]
+        jobs = [(seed, i, 400, 50) for i in range(32)] + [('tcp', seed, i, 120, 40) for i in range(16)]
     else:
-        jobs = [(seed, i, 40, 25) for i in range(16)]
+        jobs = [(seed, i, 40, 25) for i in range(16)] + [('tcp', seed, i, 10, 20) for i in range(8)]
     return common.parallel(shard, jobs)
